@@ -46,6 +46,28 @@ def cases(ctx):
             if len(set(s["data"])) < 2:
                 s["data"][0] = 9
             c["params"] = cmdgen.gen_params(rng, cmd, 1, [v for v in s["data"]])
+        elif cmd in ("NormalizeCat", "CvtToFuzzyCat") and rng.random() < 0.3:
+            # category codes that are large and adjacent (land-cover / watershed codes), or float codes a hair apart: a category
+            # is the cells *equal* to its raw value
+            s = c["inputs"][0]
+            if s["dtype"].startswith("int"):
+                base = rng.choice([180100, 1000000, 32000 if s["dtype"] == "int16" else 21040000])
+                if s["dtype"] == "int16":
+                    base = 32000
+                codes = [base + k for k in range(4)]
+            else:
+                base = rng.choice([1.0, 250.0, 1e6])
+                codes = [base, base * (1 + 1e-7), base * (1 + 2e-6), base * (1 - 3e-9)]
+                if s["dtype"] == "float32":
+                    codes = [base, base * (1 + 1e-6), base * (1 + 4e-6), base * (1 - 2e-6)]
+                    import numpy
+                    codes = [float(numpy.float32(x)) for x in codes]
+            s["data"] = [rng.choice(codes) for _ in s["data"]]
+            k = rng.randint(1, 3)
+            raws = rng.sample(codes, k)
+            vals = [rng.randint(-8, 8) / 8.0 for _ in range(k)]
+            c["params"] = {"RawValues": raws, "FuzzyValues" if cmd == "CvtToFuzzyCat" else "NormalValues": vals,
+                           "DefaultFuzzyValue" if cmd == "CvtToFuzzyCat" else "DefaultNormalValue": rng.randint(-8, 8) / 8.0}
         yield c
 
 
